@@ -18,7 +18,7 @@ pub fn prop() -> Prop {
         check,
         quick_runs: 24_000,
         both_profiles: false,
-        rule: "a run = interleaved traffic of 2-4 aircraft with adversarially close addresses (one-bit neighbours, byte-swapped, shared halves, 000001, FFFFFF) in all nine formats with structured and random payloads, plus zero-address frames, duplicates and reordering; the table is diffed after every delivered read; in 6 % of the runs the wall clock is set back once or twice (by < 1 s up to 15 s); 0.3 % of the runs track more than 1000 aircraft; runs may begin after a long uptime or just before a calendar boundary; non-trivial = frames of at least two distinct addresses were applied; distinct = distinct scripts",
+        rule: "a run = interleaved traffic of 2-4 aircraft with adversarially close addresses (one-bit neighbours, byte-swapped, shared halves, 000001, FFFFFF) in all nine formats with structured and random payloads, plus zero-address frames, duplicates, reordering and time-stamped lines whose frame was hit by noise behind a stamp that itself begins like a DF0/4/5 or DF16/20/21 frame; the table is diffed after every delivered read; in 6 % of the runs the wall clock is set back once or twice (by < 1 s up to 15 s); 0.3 % of the runs track more than 1000 aircraft; runs may begin after a long uptime or just before a calendar boundary; non-trivial = frames of at least two distinct addresses were applied; distinct = distinct scripts",
         level_text: "seeded exploration of interleaved multi-aircraft histories; invariants after every event against an independent CRC-24 / address reference: only the row of the frame's address may change, that row exists afterwards, no row for address 0, row key equals row address, no unexplained new rows",
     }
 }
